@@ -43,6 +43,13 @@ pub struct GenCfg {
     pub w_custom: u32,
     /// per-mille of scenarios with one persistent database fault on a key the facade may read
     pub facade_fault_pm: u32,
+    /// conflict-chain routines also read the fee recipient / conditionally destroy and create
+    pub chain_benef: bool,
+    pub chain_destroy: bool,
+    pub chain_fund: bool,
+    /// per-mille of scenarios with a funding pattern: an EOA with zero balance whose transactions
+    /// are valid only because an earlier transaction of the block funds it
+    pub fund_pm: u32,
 }
 
 impl Default for GenCfg {
@@ -74,6 +81,10 @@ impl Default for GenCfg {
             w_call_eoa: 30,
             w_custom: 0,
             facade_fault_pm: 0,
+            chain_benef: false,
+            chain_destroy: false,
+            chain_fund: false,
+            fund_pm: 60,
         }
     }
 }
@@ -171,22 +182,39 @@ pub fn stmt(d: Dim, g: &GenCfg, depth: u32) -> BoxedStrategy<Stmt> {
 
 /// Conflict-chain routines over a few slots: unconditional writes, writes guarded by a slot
 /// another routine writes (the write set changes between incarnations), and copies.
-pub fn chain_routine() -> BoxedStrategy<Vec<Stmt>> {
+pub fn chain_routine(benef: bool, destroy: bool, fund: bool) -> BoxedStrategy<Vec<Stmt>> {
     let slot = || 0u8..4;
     let val = || prop_oneof![(1u64..4).prop_map(Expr::Const), slot().prop_map(Expr::SLoad), Just(Expr::Const(0))];
-    let one = prop_oneof![
-        3 => (slot(), val()).prop_map(|(s, v)| Stmt::SStore(s, v)),
-        4 => (slot(), slot(), val()).prop_map(|(a, b, v)| Stmt::If(Expr::SLoad(a), vec![Stmt::SStore(b, v)], vec![])),
-        2 => (slot(), slot(), slot(), val(), val()).prop_map(|(a, b, c, v, w)| Stmt::If(Expr::IsZero(Box::new(Expr::SLoad(a))), vec![Stmt::SStore(b, v)], vec![Stmt::SStore(c, w)])),
-        2 => (slot(), slot()).prop_map(|(a, b)| Stmt::SStore(b, Expr::Add(Box::new(Expr::SLoad(a)), Box::new(Expr::Const(1))))),
-        1 => (slot()).prop_map(|a| Stmt::Return(Expr::SLoad(a))),
-    ];
+    let mut alts: Vec<(u32, BoxedStrategy<Stmt>)> = Vec::new();
+    alts.push((3, ((slot(), val()).prop_map(|(s, v)| Stmt::SStore(s, v))).boxed()));
+    alts.push((4, ((slot(), slot(), val()).prop_map(|(a, b, v)| Stmt::If(Expr::SLoad(a), vec![Stmt::SStore(b, v)], vec![]))).boxed()));
+    alts.push((2, ((slot(), slot(), slot(), val(), val()).prop_map(|(a, b, c, v, w)| Stmt::If(Expr::IsZero(Box::new(Expr::SLoad(a))), vec![Stmt::SStore(b, v)], vec![Stmt::SStore(c, w)]))).boxed()));
+    alts.push((2, ((slot(), slot()).prop_map(|(a, b)| Stmt::SStore(b, Expr::Add(Box::new(Expr::SLoad(a)), Box::new(Expr::Const(1)))))).boxed()));
+    alts.push((1, ((slot()).prop_map(|a| Stmt::Return(Expr::SLoad(a)))).boxed()));
+    alts.push(((if benef { 4 } else { 0 }), ((slot(), prop_oneof![Just(Expr::Balance(AddrRef::Benef)), Just(Expr::ExtCodeSize(AddrRef::Benef)), Just(Expr::ExtCodeHash(AddrRef::Benef))]).prop_map(|(a, e)| Stmt::SStore(a, e))).boxed()));
+    alts.push(((if benef { 1 } else { 0 }), ((0u64..3).prop_map(|v| Stmt::Call { kind: CallKind::Call, target: AddrRef::Benef, value: v, sel: 0, arg: None, small_gas: false, store: Some(3) })).boxed()));
+    alts.push(((if fund { 5 } else { 0 }), ((slot(), any::<bool>(), 0u8..3).prop_map(|(a, neg, k)| {
+            let c = if neg { Expr::IsZero(Box::new(Expr::SLoad(a))) } else { Expr::SLoad(a) };
+            Stmt::If(c, vec![Stmt::Call { kind: CallKind::Call, target: AddrRef::Eoa(k), value: 1_000_000_000_000_000_000, sel: 0, arg: None, small_gas: false, store: None }], vec![])
+        })).boxed()));
+    alts.push(((if destroy { 3 } else { 0 }), ((slot(), any::<bool>(), prop_oneof![Just(AddrRef::Absent(0)), Just(AddrRef::Eoa(0)), Just(AddrRef::Benef)]).prop_map(|(a, neg, to)| {
+            let c = if neg { Expr::IsZero(Box::new(Expr::SLoad(a))) } else { Expr::SLoad(a) };
+            Stmt::If(c, vec![Stmt::SelfDestruct(to)], vec![])
+        })).boxed()));
+    alts.push(((if destroy { 3 } else { 0 }), ((slot(), any::<bool>(), any::<bool>(), 0u8..2, 0u8..INIT_KINDS, proptest::option::weighted(0.5, 0u8..4)).prop_map(|(a, neg, create2, salt, init, store)| {
+            let c = if neg { Expr::IsZero(Box::new(Expr::SLoad(a))) } else { Expr::SLoad(a) };
+            Stmt::If(c, vec![Stmt::Create { create2, salt, init, value: 0, store }], vec![])
+        })).boxed()));
+    alts.push(((if destroy { 2 } else { 0 }), ((prop_oneof![(1u8..3).prop_map(|n| AddrRef::Created { creator: 0, nonce: n }), ((0u8..2), (0u8..INIT_KINDS)).prop_map(|(salt, init)| AddrRef::Created2 { creator: 0, salt, init }), Just(AddrRef::Con(1))], 0u8..4, slot())
+            .prop_map(|(target, sel, st)| Stmt::Call { kind: CallKind::Call, target, value: 0, sel, arg: Some(5), small_gas: false, store: Some(st) })).boxed()));
+    alts.retain(|(w, _)| *w > 0);
+    let one = proptest::strategy::Union::new_weighted(alts);
     proptest::collection::vec(one, 1..3).boxed()
 }
 
-pub fn chain_contract() -> BoxedStrategy<ContractDef> {
-    (proptest::collection::vec(chain_routine(), 2..5), proptest::collection::vec(((0u8..4), (0u64..3)), 0..3))
-        .prop_map(|(r, storage)| ContractDef { balance: Bal::Zero, storage, code: Code::Routines(r) })
+pub fn chain_contract(benef: bool, destroy: bool, fund: bool) -> BoxedStrategy<ContractDef> {
+    (proptest::collection::vec(chain_routine(benef, destroy, fund), 2..5), proptest::collection::vec(((0u8..4), (0u64..3)), 0..3))
+        .prop_map(move |(r, storage)| ContractDef { balance: if fund { Bal::Ether(50) } else { Bal::Zero }, storage, code: Code::Routines(r) })
         .boxed()
 }
 
@@ -364,7 +392,18 @@ pub fn narrow_point_kind() -> impl Strategy<Value = u32> {
         2 => Just(pt::EXEC_ERR_HEAD_CHECK),
         1 => Just(pt::VAL_READ),
         1 => Just(pt::EXEC_DONE),
-        1 => Just(pt::DB_PUBLISH),
+        2 => Just(pt::DB_PUBLISH),
+        2 => Just(pt::WAIT_YIELD),
+        1 => Just(pt::WAIT_CHECK1),
+        2 => Just(pt::FIN_LOOP),
+        1 => Just(pt::FIN_PUBLISH),
+        2 => Just(pt::COMMIT_LOOP),
+        2 => Just(pt::COMMIT_APPLY),
+        1 => Just(pt::COMMIT_PUBLISH),
+        1 => Just(pt::EXEC_START),
+        1 => Just(pt::HIST_RECORD),
+        1 => Just(pt::HIST_SCAN),
+        1 => Just(pt::LOCK_DEP_STATE),
     ]
 }
 
@@ -377,7 +416,7 @@ pub fn until() -> impl Strategy<Value = Until> {
 
 pub fn hold() -> impl Strategy<Value = Hold> {
     (
-        prop_oneof![5 => Just(role::WORKER), 1 => Just(role::FINALITY), 2 => Just(role::COMMIT)],
+        prop_oneof![5 => Just(role::WORKER), 2 => Just(role::FINALITY), 2 => Just(role::COMMIT)],
         0u8..3,
         prop_oneof![1 => point_kind().boxed(), 2 => narrow_point_kind().boxed()],
         proptest::option::weighted(0.6, 0u16..10),
@@ -440,7 +479,7 @@ pub fn scenario(g: &GenCfg) -> BoxedStrategy<Scenario> {
                 schedule(g.w_stale_tail),
                 proptest::bool::weighted(0.7),
                 proptest::bool::weighted(if g.allow_free_running { 0.15 } else { 0.0 }),
-                (proptest::bool::weighted(g.chain_pm as f64 / 1000.0), chain_contract(), proptest::collection::vec((0u8..5, 0u8..8), 12)),
+                (proptest::bool::weighted((g.chain_pm.clamp(1, 999)) as f64 / 1000.0), chain_contract(g.chain_benef, g.chain_destroy, g.chain_fund), proptest::collection::vec((0u8..5, 0u8..8), 12), proptest::bool::weighted((g.fund_pm.clamp(1, 999)) as f64 / 1000.0), (0u8..8, 0u8..8, 0u8..8)),
                 if g.facade_fault_pm == 0 {
                     Just(None).boxed()
                 } else {
@@ -454,10 +493,20 @@ pub fn scenario(g: &GenCfg) -> BoxedStrategy<Scenario> {
                     .boxed()
                 },
             )
-                .prop_map(move |(mut eoas, mut contracts, beneficiary, mut txs, (concurrency, dnc, basefee), sched, db_yields, free, (chain, chain_con, chain_sel), facade_fault)| {
+                .prop_map(move |(mut eoas, mut contracts, beneficiary, mut txs, (concurrency, dnc, basefee), sched, db_yields, free, (chain, chain_con, chain_sel, fund, fund_shape), facade_fault)| {
+                    let chain = chain && g.chain_pm > 0;
+                    let fund = fund && g.fund_pm > 0;
                     if chain {
                         // one hot contract; transactions from (mostly) distinct senders call its routines
                         contracts[0] = chain_con;
+                        if g.chain_fund {
+                            for k in 0..eoas.len().min(3) {
+                                if (chain_sel[k].1 as usize + k) % 2 == 0 {
+                                    eoas[k].balance = Bal::Zero;
+                                    eoas[k].delegate = None;
+                                }
+                            }
+                        }
                         let ne = (eoas.len() - extra_eoa as usize).max(1) as u8;
                         for (i, t) in txs.iter_mut().enumerate() {
                             let (sel, snd) = chain_sel[i % chain_sel.len()];
@@ -466,6 +515,38 @@ pub fn scenario(g: &GenCfg) -> BoxedStrategy<Scenario> {
                                 t.sel = sel;
                                 t.value = ValueDef::Zero;
                                 t.sender = if (snd as usize) < 6 { (i as u8) % ne } else { snd % ne };
+                            }
+                        }
+                    }
+                    if fund && txs.len() >= 2 {
+                        // EOA f starts with nothing; transaction p (from a rich sender) funds it;
+                        // some later transactions are sent from f
+                        let ne = (eoas.len() - extra_eoa as usize).max(2);
+                        let f = (fund_shape.0 as usize) % ne;
+                        let rich = (f + 1) % ne;
+                        eoas[f].balance = Bal::Zero;
+                        eoas[f].delegate = None;
+                        eoas[rich].balance = Bal::Ether(10);
+                        let p = (fund_shape.1 as usize) % (txs.len() - 1);
+                        txs[p].sender = rich as u8;
+                        txs[p].to = TxTo::Call(AddrRef::Eoa(f as u8));
+                        txs[p].value = ValueDef::Wei(1_000_000_000_000_000_000);
+                        txs[p].tx_type = txs[p].tx_type.min(2);
+                        if txs[p].tx_type == 4 { txs[p].tx_type = 0; }
+                        txs[p].auths.clear();
+                        txs[p].nonce = NoncePolicy::Correct;
+                        txs[p].gas = GasDef::Limit(120_000);
+                        txs[p].price_delta = txs[p].price_delta.max(0);
+                        for (k, t) in txs.iter_mut().enumerate().skip(p + 1) {
+                            if (k + fund_shape.2 as usize) % 2 == 0 && t.tx_type != 4 {
+                                t.sender = f as u8;
+                                t.nonce = NoncePolicy::Correct;
+                                t.price_delta = t.price_delta.max(1);
+                            }
+                        }
+                        for t in txs.iter_mut().take(p) {
+                            if t.sender as usize == f {
+                                t.sender = rich as u8;
                             }
                         }
                     }
@@ -493,7 +574,18 @@ pub fn scenario(g: &GenCfg) -> BoxedStrategy<Scenario> {
                 })
         })
         .prop_map(move |mut sc| {
-            let _ = &g_outer;
+            if g_outer.panics && sc.faults.is_empty() {
+                // derive a panic plan deterministically from the scenario itself
+                let h = sc.txs.len() as u64 * 31 + sc.basefee + sc.spec as u64 * 7 + sc.world.contracts.len() as u64 * 13 + sc.grevm.concurrency as u64;
+                if h % 8 == 0 {
+                    let key = match h % 3 {
+                        0 => DbKey::Basic(AddrRef::Con((h % 2) as u8)),
+                        1 => DbKey::Basic(AddrRef::Eoa((h % 3) as u8)),
+                        _ => DbKey::Storage(AddrRef::Con(0), (h % 4) as u8),
+                    };
+                    sc.faults.push(Fault { key, mode: FaultMode::PanicNth((h % 3) as u8) });
+                }
+            }
             // sender indices must stay inside the sending EOAs
             let n = sc.world.eoas.len() as u8;
             for t in sc.txs.iter_mut() {
@@ -546,6 +638,7 @@ fn actor_stmt(d: Dim) -> BoxedStrategy<Stmt> {
 /// transactions of the delegated accounts with balances around the sum of their maximum costs.
 pub fn policy_scenario(g: &GenCfg) -> BoxedStrategy<Scenario> {
     let mut g2 = g.clone();
+    g2.fund_pm = 0;
     g2.specs = vec![(3, 12), (2, 13)];
     g2.basefees = vec![0];
     g2.chain_pm = 0;
@@ -611,6 +704,126 @@ pub fn policy_scenario(g: &GenCfg) -> BoxedStrategy<Scenario> {
                     _ => {}
                 }
             }
+            sc
+        })
+        .boxed()
+}
+
+// ---------------------------------------------------------------------------------------------
+// Flip-flop template: a transaction whose VALIDITY depends on a conditional effect of an earlier
+// transaction, which in turn depends on a guard slot that two still earlier transactions toggle.
+// Speculative incarnations of the dependent transaction alternate between success and a
+// validation error while in-order execution executes it.
+// ---------------------------------------------------------------------------------------------
+
+pub fn flipflop_scenario(g: &GenCfg) -> BoxedStrategy<Scenario> {
+    let mut g2 = g.clone();
+    g2.chain_pm = 0;
+    g2.fund_pm = 0;
+    g2.min_txs = 6;
+    g2.max_txs = g.max_txs.max(7);
+    g2.specs = vec![(1, 8), (2, 10), (2, 11), (2, 12)];
+    (scenario(&g2), 0u8..4, 0u8..4, 0u8..4, any::<bool>(), proptest::collection::vec(0u8..3, 5), 0u8..3)
+        .prop_map(|(mut sc, guard, lslot, rslot, polarity, gaps, fidx)| {
+            let n_eoa = sc.world.eoas.len();
+            if n_eoa < 3 || sc.txs.len() < 6 {
+                return sc;
+            }
+            let f = (fidx as usize) % n_eoa.min(3);
+            let lslot = if lslot == guard { (lslot + 1) % 4 } else { lslot };
+            let rslot = if rslot == guard || rslot == lslot { (guard.max(lslot) + 1) % 5 } else { rslot };
+            let (fund_val, off_val) = if polarity { (1u64, 0u64) } else { (0u64, 1u64) };
+            let cond = if polarity { Expr::SLoad(guard) } else { Expr::IsZero(Box::new(Expr::SLoad(guard))) };
+            let fund = Stmt::If(
+                cond,
+                vec![Stmt::Call { kind: CallKind::Call, target: AddrRef::Eoa(f as u8), value: 1_000_000_000_000_000_000, sel: 0, arg: None, small_gas: false, store: None }],
+                vec![],
+            );
+            sc.world.contracts[0] = ContractDef {
+                balance: Bal::Ether(50),
+                storage: vec![(guard, fund_val)],
+                code: Code::Routines(vec![
+                    vec![fund],
+                    vec![Stmt::SStore(guard, Expr::Const(off_val))],
+                    vec![Stmt::SStore(guard, Expr::Const(fund_val))],
+                    vec![Stmt::SStore(lslot, Expr::Add(Box::new(Expr::CallDataWord(0)), Box::new(Expr::Const(7))))],
+                    vec![Stmt::SStore(rslot, Expr::Add(Box::new(Expr::SLoad(lslot)), Box::new(Expr::Const(1))))],
+                ]),
+            };
+            sc.world.eoas[f].balance = Bal::Zero;
+            sc.world.eoas[f].delegate = None;
+            sc.world.eoas[f].nonce = sc.world.eoas[f].nonce.min(100);
+            for (i, e) in sc.world.eoas.iter_mut().enumerate() {
+                if i != f {
+                    e.balance = Bal::Ether(10);
+                    e.nonce = e.nonce.min(100);
+                }
+            }
+            let others: Vec<u8> = (0..n_eoa as u8).filter(|i| *i as usize != f).collect();
+            // positions of the five roles with generated gaps, in order
+            let roles = [1u8, 2, 0, 3, 4]; // off, on, fund, dependent (from f), reader
+            let mut pos = 0usize;
+            let n = sc.txs.len();
+            let mut used = vec![false; n];
+            let mut role_pos = [usize::MAX; 5];
+            for (k, sel) in roles.iter().enumerate() {
+                pos += if k == 0 { (gaps[k] as usize) % 2 } else { (gaps[k] as usize) % 2 };
+                if pos >= n {
+                    break;
+                }
+                let t = &mut sc.txs[pos];
+                *t = TxDef {
+                    sender: if *sel == 3 { f as u8 } else { others[(k + pos) % others.len()] },
+                    sel: *sel,
+                    arg: Some(k as u64 + 1),
+                    to: TxTo::Call(AddrRef::Con(0)),
+                    gas: GasDef::Limit(120_000),
+                    price_delta: 1,
+                    tx_type: 0,
+                    ..TxDef::default()
+                };
+                used[pos] = true;
+                role_pos[k] = pos;
+                pos += 1;
+            }
+            // in 60% of the cases steer the schedule towards the interesting order: the guard
+            // toggles are executed late (the conditional funder and the dependent transaction run
+            // first on the pre-state guard), and the second toggle later still
+            if gaps[4] != 0 && role_pos[1] != usize::MAX {
+                if let Some(s) = sc.schedule.as_mut() {
+                    s.holds.clear();
+                    // "off" waits for two finished attempts (the funder and the dependent on the pre-state guard)
+                    s.holds.push(Hold { role: role::WORKER, nth_thread: 255, at: pt::EXEC_START, arg: Some(role_pos[0] as u16), nth: 0, until: Until::EventOrSteps(2, 1 + gaps[3] % 2, 1500) });
+                    // the dependent waits for the funder's first attempt
+                    if role_pos[3] != usize::MAX {
+                        s.holds.push(Hold { role: role::WORKER, nth_thread: 255, at: pt::EXEC_START, arg: Some(role_pos[3] as u16), nth: 0, until: Until::EventOrSteps(2, 0, 800) });
+                    }
+                    // "on" waits until a few validations have happened after that
+                    s.holds.push(Hold { role: role::WORKER, nth_thread: 255, at: pt::EXEC_START, arg: Some(role_pos[1] as u16), nth: 0, until: Until::EventOrSteps(3, 3 + gaps[2] * 2, 3000) });
+                    sc.grevm.concurrency = 4;
+                }
+            }
+            // nobody else sends from f or funds it
+            for (i, t) in sc.txs.iter_mut().enumerate() {
+                if !used[i] {
+                    if t.sender as usize == f {
+                        t.sender = others[i % others.len()];
+                    }
+                    if let TxTo::Call(AddrRef::Eoa(k)) = &t.to {
+                        if *k as usize == f {
+                            t.to = TxTo::Call(AddrRef::Con(0));
+                            t.sel = 4;
+                        }
+                    }
+                    if t.tx_type == 4 {
+                        t.tx_type = 0;
+                        t.auths.clear();
+                    }
+                }
+            }
+            sc.disable_nonce_check = false;
+            sc.grevm.concurrency = sc.grevm.concurrency.max(2);
+            sc.grevm.force_sequential = false;
             sc
         })
         .boxed()
